@@ -53,9 +53,8 @@ def scryptParse7 (suffix : Str) : Res (Option Parsed) :=
   resBind (match splitChar DOLLAR suffix with
     | [params, digest] => .ok (params, some digest)
     | [params] => .ok (params, none)
-    -- `raise uh.exc.MalformedHashError` WITHOUT a call: MalformedHashError is a function (not an exception class),
-    -- so Python raises "TypeError: exceptions must derive from BaseException" here
-    | _ => tErr) fun (params, digest) =>
+    -- `raise uh.exc.MalformedHashError(cls)` (a ValueError)
+    | _ => vErr) fun (params, digest) =>
   if params.length < 11 then vErr
   else
   resBind (Model.B64.decodeInt6 Model.B64.h64 (params.take 1)) fun rounds =>
